@@ -27,7 +27,7 @@ func refJSONTokens(doc []byte) string {
 		wantKey bool
 	}
 	var stack []ctx
-	rng := false
+	rng, wide := false, false
 	for {
 		t, err := dec.Token()
 		if err == io.EOF {
@@ -73,7 +73,15 @@ func refJSONTokens(doc []byte) string {
 				case n.IsUint64():
 					toks = append(toks, "u64:"+n.String())
 				default:
-					rng = true
+					// outside the 64-bit range: the parser may reject the text or widen the literal to
+					// float64 - but must not report any other number
+					f, err := strconv.ParseFloat(s, 64)
+					if err != nil {
+						rng = true
+					} else {
+						wide = true
+						toks = append(toks, "f64:"+strconv.FormatUint(math.Float64bits(f), 10))
+					}
 				}
 			} else {
 				f, err := strconv.ParseFloat(s, 64)
@@ -109,6 +117,9 @@ func refJSONTokens(doc []byte) string {
 	}
 	if rng {
 		return "RANGE"
+	}
+	if wide && len(toks) > 0 {
+		return "WIDE_" + strings.Join(toks, "_")
 	}
 	if len(toks) == 0 {
 		return "EMPTY"
@@ -154,7 +165,27 @@ var jsonNumbers = []string{"0", "-0", "1", "-1", "12", "123456789", "92233720368
 	"0.0", "-0.0", "1e400", "-1e400", "1e-400", "4.9e-324", "1.7976931348623157e308", "123456789012345678901234567890", "0.30000000000000004",
 	"2.2250738585072014e-308", "1e22", "1e23", "9007199254740993", "100", "10", "1.0", "3.14", "-3.14", "7e9", "12345678", "-12345678", "5e-324", "0e0", "1E400"}
 
+// integer literals around the 64-bit borders: 2^63, 2^64 (+-30), with an extra digit, negative
+func (r *rng) jsonBorderInt() string {
+	base := new(big.Int).Lsh(big.NewInt(1), []uint{63, 64, 64, 32, 53}[r.n(5)])
+	base.Add(base, big.NewInt(int64(r.n(44)-13)))
+	s := base.String()
+	if r.chance(1, 4) {
+		s += string(rune('0' + r.n(10)))
+	}
+	if r.chance(1, 6) {
+		s = s[:len(s)-1]
+	}
+	if r.chance(1, 3) {
+		s = "-" + s
+	}
+	return s
+}
+
 func (r *rng) jsonNumber() string {
+	if r.chance(1, 6) {
+		return r.jsonBorderInt()
+	}
 	switch r.n(5) {
 	case 0:
 		return strconv.FormatInt(intPool[r.n(len(intPool))], 10)
